@@ -116,15 +116,22 @@ pub fn panic_str(k: PanicKind) -> String {
 
 /// Dimension names must be `&'static str`; interned and leaked once per distinct name.
 pub fn intern(name: &str) -> &'static str {
-    static TABLE: Mutex<Option<HashMap<String, &'static str>>> = Mutex::new(None);
+    // Equal names are deliberately handed out at DIFFERENT addresses: each distinct name has
+    // three leaked copies and successive calls rotate through them, so library code that
+    // compared dimension names by pointer instead of by text would be exposed, while the
+    // memory leaked stays bounded.  The answers of a run must not depend on this.
+    const COPIES: usize = 3;
+    static TABLE: Mutex<Option<HashMap<String, (Vec<&'static str>, usize)>>> = Mutex::new(None);
     let mut guard = TABLE.lock().unwrap();
     let table = guard.get_or_insert_with(HashMap::new);
-    if let Some(s) = table.get(name) {
-        return s;
+    let entry = table.entry(name.to_string()).or_insert_with(|| (Vec::new(), 0));
+    if entry.0.len() < COPIES {
+        let leaked: &'static str = Box::leak(name.to_string().into_boxed_str());
+        entry.0.push(leaked);
+        return leaked;
     }
-    let leaked: &'static str = Box::leak(name.to_string().into_boxed_str());
-    table.insert(name.to_string(), leaked);
-    leaked
+    entry.1 = (entry.1 + 1) % COPIES;
+    entry.0[entry.1]
 }
 
 pub fn split_comma(s: &str) -> Vec<&str> {
